@@ -54,6 +54,9 @@ HISTORIES = [
                                                                       ("tsevent-during", 1, 1), ("request", None), ("request", 0)]),
     ("SIGINT between requests", "sigint", [("sigint",), ("request", 1), ("request", 0.5), ("arrive", "a"), ("request", 0.5), ("request", 0)]),
     ("SIGINT, then a blocking request for a key", "sigint", [("sigint",), ("sigint",), ("request", None), ("request", None), ("arrive", "up"), ("request", None), ("request", 0.25)]),
+    ("a wake-up byte left over from a SIGINT, then a trigger fires during the request's second wait", "sigint",
+     [("sigint",), ("request", 1), ("tsevent-during-2nd", 0, 1), ("request", 5), ("request", 0)]),
+    ("the context is left and entered again while keys are still buffered", None, [("arrive", "up+a"), ("request", 1), ("reenter",), ("drain",)]),
     ("keys typed before the context is entered", None, [("typed-ahead", "ab"), ("request", 1), ("request", 1), ("request", 0)]),
     ("everything at once", None, [("arrive", "ab"), ("event", 0, 1), ("tsevent", 0, 1), ("sched", 0.0, 1), ("unget", "up"), ("drain",)]),
 ]
@@ -226,6 +229,13 @@ def run_history(it, title, threshold, steps):
             sigints["sent"] += 1
             trail.append("SIGINT arrives")
             continue
+        if st[0] == "reenter":
+            r1 = it.callm(inp, "__exit__", None, None, None)
+            r2 = it.callm(inp, "__enter__")
+            if r1[0] != "ok" or r2[0] != "ok":
+                raise AnalysisError("leaving and re-entering the Input context gives %s / %s" % (r1, r2))
+            trail.append("the context is left and entered again")
+            continue
         if st[0] == "arrive":
             data, names = KEYS[st[1]]
             osm.data.setdefault(0, []).append(data)
@@ -243,7 +253,7 @@ def run_history(it, title, threshold, steps):
             if r[0] != "ok":
                 raise AnalysisError("unget_bytes gives %s" % (r,))
             trail.append("unget_bytes(%s)" % st[1])
-        elif st[0] in ("event", "tsevent", "tsevent-during"):
+        elif st[0] in ("event", "tsevent", "tsevent-during", "tsevent-during-2nd"):
             table = triggers if st[0] == "event" else ts_triggers
             if st[1] not in table:
                 r = it.callm(inp, "event_trigger" if st[0] == "event" else "threadsafe_event_trigger", ev_cls)
@@ -253,13 +263,20 @@ def run_history(it, title, threshold, steps):
             rows = (1 if st[0] == "event" else 2) * 100 + st[1]
             # the n-th firing of a trigger is numbered when it actually fires (a callback waiting for the next blocked request
             # may fire after later direct calls)
-            if st[0] == "tsevent-during":
+            if st[0] in ("tsevent-during", "tsevent-during-2nd"):
                 def fire(cb=table[st[1]], rows=rows):
                     fire_count[rows] = fire_count.get(rows, 0) + 1
                     call_cb(cb, rows=rows, columns=fire_count[rows])
                     triggered.append(("event", rows, fire_count[rows]))
                     fired_during.append(1)
                     trail.append("(the waiting callback of threadsafe trigger %d fires now)" % (rows % 100))
+                if st[0] == "tsevent-during-2nd":
+                    # ... while the request is blocked for the SECOND time (its first wait was ended by something that did not end the request)
+                    def rearm(fire=fire):
+                        osm.on_select = fire
+                    osm.on_select = rearm
+                    trail.append("(threadsafe trigger %d will fire from another thread when the next request blocks for the second time)" % st[1])
+                    continue
                 osm.on_select = fire
                 trail.append("(threadsafe trigger %d will fire from another thread as soon as a request is blocked)" % st[1])
                 continue
